@@ -233,6 +233,9 @@ func main() {
 			}
 			ast.ReleaseAST(tree)
 		}
+		if c.Toks[0] == "SELECT" && (tier == "thorough" || len(c.Path) == 1 || ci%5 == 0) {
+			farContexts(&c)
+		}
 		if ci%300 == 11 {
 			run.Sample(map[string]any{"path": c.Path, "sql": strings.Join(c.Toks, " "), "T": c.T, "C": c.C, "F": c.F})
 		}
@@ -270,4 +273,75 @@ func sameSet(a, b []string) bool {
 		}
 	}
 	return true
+}
+
+// farContexts: FarContexts of Names.tla - the composition as the first (deepest) operand of a long conjunction in WHERE
+// and in a join condition, and as the innermost of many derived tables.  Expected names: the composition's plus the
+// context's own.
+func farContexts(c *ncase) {
+	q := strings.Join(c.Toks, " ")
+	chain := func(n int) (string, []string) {
+		var b strings.Builder
+		var cols []string
+		for i := 1; i <= n; i++ {
+			fmt.Fprintf(&b, " AND fw%d = %d", i, i)
+			cols = append(cols, fmt.Sprintf("fw%d", i))
+		}
+		return b.String(), cols
+	}
+	tail, tailCols := chain(130)
+	deep, deepCols := q, []string{}
+	for i := 1; i <= 40; i++ {
+		deep = fmt.Sprintf("SELECT fd%d FROM ( %s ) fa%d", i, deep, i)
+		deepCols = append(deepCols, fmt.Sprintf("fd%d", i))
+	}
+	for _, fc := range []struct {
+		name, text string
+		tabs, cols []string
+	}{
+		{"first-conjunct-before-long-chain", "SELECT fw0 FROM fwt WHERE EXISTS ( " + q + " )" + tail, []string{"fwt"}, append([]string{"fw0"}, tailCols...)},
+		{"first-join-condition-conjunct-before-long-chain", "SELECT fw0 FROM fwt JOIN fwu ON EXISTS ( " + q + " )" + tail, []string{"fwt", "fwu"}, append([]string{"fw0"}, tailCols...)},
+		{"innermost-of-deep-derived-tables", deep, nil, deepCols},
+	} {
+		tree, err := gosqlx.Parse(fc.text)
+		run.Eval(1)
+		if err != nil {
+			continue
+		}
+		run.Nontrivial(fc.text)
+		fcase := *c
+		fcase.Path = append([]string{"far:" + fc.name}, c.Path...)
+		var tq, cq []string
+		for _, t := range fc.tabs {
+			tq = append(tq, "|"+t)
+		}
+		for _, x := range fc.cols {
+			cq = append(cq, "|"+x)
+		}
+		farCompare(&fcase, fc.name, "tables", gosqlx.ExtractTables(tree), append(append([]string{}, c.T...), fc.tabs...), fc.text)
+		farCompare(&fcase, fc.name, "tables-qualified", qn(gosqlx.ExtractTablesQualified(tree), true), append(pairs(c.TQ), tq...), fc.text)
+		farCompare(&fcase, fc.name, "columns", gosqlx.ExtractColumns(tree), append(append([]string{}, c.C...), fc.cols...), fc.text)
+		farCompare(&fcase, fc.name, "columns-qualified", qn(gosqlx.ExtractColumnsQualified(tree), false), append(pairs(c.CQ), cq...), fc.text)
+		farCompare(&fcase, fc.name, "functions", upperAll(gosqlx.ExtractFunctions(tree)), c.F, fc.text)
+		ast.ReleaseAST(tree)
+	}
+}
+
+func farCompare(c *ncase, ctx, what string, got, want []string, text string) {
+	g := set(got)
+	for _, x := range want {
+		if !g[x] {
+			run.Violate(core.Violation{Sig: what + "-missing|far:" + ctx, Clause: "the extracted set equals the set of names written in those positions, at any sub-query or CTE depth",
+				Case: map[string]any{"kind": "names", "path": c.Path, "sql": text}, Observe: got, Expect: want})
+			return
+		}
+	}
+	w := set(want)
+	for _, x := range got {
+		if !w[x] {
+			run.Violate(core.Violation{Sig: what + "-extra|far:" + ctx, Clause: "aliases, internally synthesised names, string contents and keywords never appear",
+				Case: map[string]any{"kind": "names", "path": c.Path, "sql": text}, Observe: got, Expect: want})
+			return
+		}
+	}
 }
